@@ -9,6 +9,7 @@ structure State where
   setBad : Nat := 0
   acl : Set := {}
   views : List Set := []
+  vtypes : List (List Nat) := []
 
 def parseEntry (s : String) : Option Entry :=
   if s.startsWith "bad:" then some none else
@@ -34,6 +35,9 @@ def parseAddr (s : String) : Option (Fam × Nat) :=
              else if fam == "m" then some Fam.mapped else none)
     some (f, a)
   | _ => none
+
+def typeCode (s : String) : Option Nat :=
+  if s == "a" then some 1 else if s == "aaaa" then some 28 else if s == "txt" then some 16 else none
 
 def openList : List Entry := [some (Fam.v4, 0, 0), some (Fam.v6, 0, 0)]
 
@@ -62,16 +66,23 @@ def step (st : State) (w : List String) : State × String :=
       (st, s!"next={boolStr nxt} written={boolStr nxt}")
     | _, _ => (st, "bad-op")
   | ["views", "new", vs] =>
-    match (vs.splitOn ";").mapM parseEntries with
-    | some ls => ({ st with views := ls.map Set.new }, "ok")
+    let parts := (vs.splitOn ";").map fun p => p.splitOn "|"
+    let parsed := parts.mapM fun p => match p with
+      | [es, ts] => do
+        let l ← parseEntries es
+        let tys ← (if ts == "none" then some [] else (ts.splitOn "+").mapM typeCode)
+        some (l, tys)
+      | _ => none
+    match parsed with
+    | some ls => ({ st with views := ls.map (fun x => Set.new x.1), vtypes := ls.map (·.2) }, "ok")
     | none => (st, "bad-op")
-  | ["views", "serve", a, internal] =>
-    match parseAddr a, parseBool internal with
-    | some (f, v), some i =>
-      match viewPick st.views i f v with
+  | ["views", "serve", a, internal, qt] =>
+    match parseAddr a, parseBool internal, typeCode qt with
+    | some (f, v), some i, some t =>
+      match viewAnswer st.views st.vtypes i f v t with
       | some k => (st, s!"view={k}")
       | none => (st, "view=none")
-    | _, _ => (st, "bad-op")
+    | _, _, _ => (st, "bad-op")
   | "sub" :: _ => (st, "unmodelled")
   | _ => (st, "bad-op")
 
